@@ -9,8 +9,13 @@ its own-language translator class T:
       (other packages), its package re-targeted the way the driver does
   h4  a fresh T after p was translated by the three other languages'
       translators (their exceptions are caught and only counted)
+  h5  a fresh T at the END of the cell's session, on a faithful copy of the program taken when it
+      was first translated: whatever later programs left behind anywhere in the process (module or
+      class level state included) must not show in the text
 Verdicts: all texts byte-identical; the program's value digest unchanged by
 every translation (own-language and foreign)."""
+import pickle
+
 from vf import digest as dg
 
 
@@ -30,6 +35,7 @@ class Monitor:
         self.cell = cell
         self.long_lived = None
         self.pre = None
+        self.kept = []
 
     def case_begin(self, case):
         self.case = case
@@ -111,12 +117,46 @@ class Monitor:
                 bad += 1
                 self._viol('text-differs', 'history %s differs from the driver text at stage %s: %s' % (
                     name, stage, short_diff(text, t)), {'history': name})
+        if stage == 'generated' and len(self.kept) < 40:
+            # h5: keep a faithful copy now, translate it again when the session ends
+            try:
+                blob = pickle.dumps(program)
+                again = utils.translate_program(T(package, opts), pickle.loads(blob))
+                if again == text:
+                    self.kept.append((blob, text, package, self.case.ident()))
+                else:
+                    out.skip('h5:copy-does-not-translate-identically')     # C13's business
+            except Exception as e:
+                out.skip('h5:copy-failed:' + type(e).__name__)
         if not bad:
             out.ok(('text', lang, stage.rstrip('0123456789'), __import__('hashlib').sha1(text.encode()).hexdigest()),
                    nontrivial=len(text) > 400)
         if len(out.samples) < 2:
             out.sample({'case': self.case.ident(), 'stage': stage, 'text_bytes': len(text),
                         'histories_equal': not bad, 'digest': d0})
+
+
+    def finish(self):
+        import hephaestus as H
+        from src import utils
+        out = self.out
+        T = H.TRANSLATORS[self.cell['lang']]
+        opts = H.cli_args.options['Translator']
+        for blob, text, package, ident in self.kept:
+            try:
+                t = utils.translate_program(T(package, opts), pickle.loads(blob))
+            except Exception as e:
+                out.skip('h5:translator-raised:' + type(e).__name__)
+                continue
+            out.ev('text-comparisons')
+            out.ev('session-end-comparisons')
+            if t != text:
+                out.violation({'rule': 'text-differs', 'lang': self.cell['lang'], 'history': 'session-end'},
+                              'a fresh translator at the end of the session prints the program differently from '
+                              'its first translation: %s' % short_diff(text, t),
+                              {'case': ident, 'stage': 'generated', 'history': 'h5'})
+            else:
+                out.ok(('h5', self.cell['lang'], ident['seed']), nontrivial=False)
 
 
 CELL_TIMEOUT = 1500
@@ -132,6 +172,10 @@ def plan(tier, seed):
                   'switches': [SWITCHES[0]], 'tag': 'nousv'})
         p.append({'lang': lang, 'n': 6 if tier == 'quick' else 40, 'chunk': 6 if tier == 'quick' else 20,
                   'tag': 'cast', 'extra_argv': ['--cast-numbers']})
+        # library-level configuration (cfg.json_config): functions with up to 5 parameters -- nested functions of
+        # arity > 3 make the Java/Groovy translators declare further FunctionN interfaces
+        p.append({'lang': lang, 'n': 8 if tier == 'quick' else 60, 'chunk': 8 if tier == 'quick' else 20,
+                  'tag': 'wideparams', 'cfg': {'limits': {'fn': {'max_params': 5}}}})
         if tier != 'quick':
             p.append({'lang': lang, 'n': 24, 'chunk': 12, 'tag': 'noshim', 'shim': False})
             p.append({'lang': lang, 'n': 40, 'chunk': 20, 'max_depth': 7})
@@ -144,6 +188,7 @@ def finish(agg, tier):
     agg.floor('text-comparisons', 1200 if q else 12000)
     agg.floor('digest-pairs', 2000 if q else 20000)
     agg.floor('foreign-translations', 100 if q else 1000)
+    agg.floor('session-end-comparisons', 100 if q else 1000)
     return agg.finish(
         rule='judged = (program, stage) pairs whose driver text was compared with 4 further translation '
              'histories (fresh, repeated, long-lived reused translator, after 3 foreign-language translators) '
